@@ -149,7 +149,7 @@ class Stop(Exception):
     pass
 
 
-def run_main(argv, stdin_bytes, rpc=None):
+def run_main(argv, stdin_bytes, rpc=None, passphrase=None):
     """Run bits.__main__.main() in-process.  -> dict(obs=..., out=bytes, ret=..., exit=...)
     rpc: optional replacement for bits.rpc.rpc_method (default: a stub that records its keyword arguments and stops)."""
     import bits
@@ -209,7 +209,7 @@ def run_main(argv, stdin_bytes, rpc=None):
     patch(bits, "to_bitcoin_address", to_bitcoin_address)
     patch(b32, "root_serialized_extended_key", root_ser)
     patch(brpc, "rpc_method", rpc if rpc is not None else rpc_method)
-    patch(bm, "getpass", lambda prompt="": "")
+    patch(bm, "getpass", lambda prompt="": passphrase or "")
     old = (sys.argv, sys.stdin, sys.stdout, sys.stderr)
     inb, outb, errb = _Keep(stdin_bytes), _Keep(), _Keep()
     sys.argv = ["bits"] + list(argv)
